@@ -132,9 +132,10 @@ func (a *recAdapter) Len() int {
 
 func (a *recAdapter) enqueue(item any, prio int) bool {
 	a.mu.Lock()
+	sq := a.ep.g.seq.Add(1)
 	if a.closed || a.fault("enq") {
 		a.mu.Unlock()
-		a.ep.g.note("ad.enq", "a", a.idx, "job", entryKey(item), "ok", false)
+		a.ep.g.noteAt(sq, "ad.enq", "a", a.idx, "job", entryKey(item), "ok", false)
 		return false
 	}
 	e := recEntry{seq: a.nextSeq, data: item, prio: prio}
@@ -149,7 +150,7 @@ func (a *recAdapter) enqueue(item any, prio int) bool {
 	if b, ok := item.([]byte); ok {
 		raw = string(b)
 	}
-	a.ep.g.note("ad.enq", "a", a.idx, "job", entryKey(item), "ok", true, "eseq", e.seq, "prio", prio, "raw", raw)
+	a.ep.g.noteAt(sq, "ad.enq", "a", a.idx, "job", entryKey(item), "ok", true, "eseq", e.seq, "prio", prio, "raw", raw, "nsubs", len(subs))
 	for _, s := range subs {
 		s("enqueued")
 	}
@@ -158,22 +159,60 @@ func (a *recAdapter) enqueue(item any, prio int) bool {
 
 func (a *recAdapter) Enqueue(item any) bool { return a.enqueue(item, 0) }
 
+// Dequeue without an acknowledgement id: the entry is gone for good (the library must not use it on this adapter)
 func (a *recAdapter) Dequeue() (any, bool) {
 	a.mu.Lock()
-	defer a.mu.Unlock()
 	if len(a.pending) == 0 {
+		a.mu.Unlock()
 		return nil, false
 	}
 	e := a.pending[0]
 	a.pending = a.pending[1:]
+	sq := a.ep.g.seq.Add(1)
+	a.mu.Unlock()
+	a.ep.g.noteAt(sq, "ad.deq", "a", a.idx, "ok", true, "job", entryKey(e.data), "eseq", e.seq, "ack", "")
 	return e.data, true
+}
+
+// enqueueRaw stores an entry no worker can run: undecodable bytes, an invalid status, a foreign payload type, a closed job
+func (a *recAdapter) enqueueRaw(kind string, prio int) {
+	var b []byte
+	switch kind {
+	case "undecodable":
+		b = []byte("{not json")
+	case "badstatus":
+		b = []byte(`{"id":"x","status":"Bogus","data":1}`)
+	case "foreign":
+		b = []byte(`{"id":"x","status":"Created","data":"a string, not an int"}`)
+	default:
+		b = []byte(`{"id":"x","status":"Closed","data":0}`)
+	}
+	a.enqueueBad(b, prio, kind)
+}
+
+func (a *recAdapter) enqueueBad(b []byte, prio int, kind string) {
+	a.mu.Lock()
+	sq := a.ep.g.seq.Add(1)
+	e := recEntry{seq: a.nextSeq, data: b, prio: prio}
+	a.nextSeq++
+	a.pending = append(a.pending, e)
+	if a.byPrio {
+		sort.SliceStable(a.pending, func(i, j int) bool { return a.pending[i].prio < a.pending[j].prio })
+	}
+	subs := append([]func(string){}, a.subs...)
+	a.mu.Unlock()
+	a.ep.g.noteAt(sq, "ad.enq", "a", a.idx, "job", -1, "ok", true, "eseq", e.seq, "prio", prio, "bad", kind, "nsubs", len(subs))
+	for _, s := range subs {
+		s("enqueued")
+	}
 }
 
 func (a *recAdapter) DequeueWithAckId() (any, bool, string) {
 	a.mu.Lock()
+	sq := a.ep.g.seq.Add(1)
 	if len(a.pending) == 0 || a.fault("deq") {
 		a.mu.Unlock()
-		a.ep.g.note("ad.deq", "a", a.idx, "ok", false)
+		a.ep.g.noteAt(sq, "ad.deq", "a", a.idx, "ok", false)
 		return nil, false, ""
 	}
 	e := a.pending[0]
@@ -182,16 +221,17 @@ func (a *recAdapter) DequeueWithAckId() (any, bool, string) {
 	id := fmt.Sprintf("ack-%d-%d", a.idx, a.nextAck)
 	a.unacked[id] = e
 	a.mu.Unlock()
-	a.ep.g.note("ad.deq", "a", a.idx, "ok", true, "job", entryKey(e.data), "eseq", e.seq, "ack", id)
+	a.ep.g.noteAt(sq, "ad.deq", "a", a.idx, "ok", true, "job", entryKey(e.data), "eseq", e.seq, "ack", id)
 	return e.data, true, id
 }
 
 func (a *recAdapter) Acknowledge(id string) bool {
 	a.mu.Lock()
+	sq := a.ep.g.seq.Add(1)
 	e, known := a.unacked[id]
 	if a.fault("ack") {
 		a.mu.Unlock()
-		a.ep.g.note("ad.ack", "a", a.idx, "ack", id, "ok", false, "known", known, "refused", true)
+		a.ep.g.noteAt(sq, "ad.ack", "a", a.idx, "ack", id, "ok", false, "known", known, "refused", true)
 		return false
 	}
 	if known {
@@ -200,7 +240,7 @@ func (a *recAdapter) Acknowledge(id string) bool {
 	}
 	dup := a.acked[id] && !known
 	a.mu.Unlock()
-	a.ep.g.note("ad.ack", "a", a.idx, "ack", id, "ok", known, "known", known, "dup", dup, "job", entryKey(e.data), "eseq", e.seq)
+	a.ep.g.noteAt(sq, "ad.ack", "a", a.idx, "ack", id, "ok", known, "known", known, "dup", dup, "job", entryKey(e.data), "eseq", e.seq)
 	return known
 }
 
@@ -216,10 +256,11 @@ func (a *recAdapter) Values() []any {
 
 func (a *recAdapter) Purge() {
 	a.mu.Lock()
+	sq := a.ep.g.seq.Add(1)
 	n := len(a.pending)
 	a.pending = nil
 	a.mu.Unlock()
-	a.ep.g.note("ad.purge", "a", a.idx, "n", n)
+	a.ep.g.noteAt(sq, "ad.purge", "a", a.idx, "n", n)
 }
 
 func (a *recAdapter) Close() error {
